@@ -28,7 +28,7 @@ from .. import core
 QUERIES = {
     # (no descendant segment here: on the "deep" document class those raise at evaluation time, see "evalerr")
     "valid": ["$.a", "$.k[?@.a == 'é' || @.a > 1]", "$[*]", "$.*[?match(@.a, '.*b')]", "$.k[0,0]", "$.nope", "$.k[*].a"],
-    "syntax": ["$.k[?@.a ==]", "$[", "$.k.", "$.k[?!!@.a]"],
+    "syntax": ["$.k[?@.a ==]", "$[", "$.k.", "$.k[?!!@.a]", "", " ", "\n"],
     "type": ["$.k[?count(@.a, 'x')]", "$.k[?length(@.*) == 1]", "$.k[?match(@.a, 'b') == true]"],
     "name": ["$.k[?nosuch(@.a)]"],
     "index": [f"$.k[{2**53}]", f"$[1:{-2**53}]"],
